@@ -8,7 +8,8 @@ from .vals import *   # noqa
 
 REC_METHODS = {"get", "items", "keys", "values", "copy"}
 KNOWN_METHODS = {
-    "list": {"append", "extend", "insert", "pop", "remove", "clear", "copy", "index", "count", "sort", "reverse"},
+    "list": {"append", "extend", "insert", "pop", "remove", "clear", "copy", "index", "count", "sort", "reverse",
+             "popleft", "appendleft"},
     "dict": {"get", "items", "keys", "values", "pop", "update", "setdefault", "copy", "clear", "popitem", "fromkeys"},
     "set": {"add", "discard", "remove", "clear", "copy", "update", "union", "intersection", "difference",
             "issubset", "issuperset", "pop"},
@@ -674,6 +675,10 @@ def list_method(I, v, name, args, kw):
     import ast
     ref = v.ref
     c = I.container(ref)
+    if name == "popleft":           # collections.deque modelled as a list
+        return list_method(I, v, "pop", [VInt(0)], {})
+    if name == "appendleft":
+        return list_method(I, v, "insert", [VInt(0), args[0]], {})
     if name == "append":
         if isinstance(c, LConc):
             I.set_container(ref, LConc(c.items + (args[0],)))
@@ -951,7 +956,9 @@ def delitem(I, base, idx):
         if isinstance(c, DConc):
             k = I.pyconst(idx)
             if k is MISSING:
-                raise Unsupported("del on concrete dict with symbolic key")
+                if c.get(idx) is None:
+                    raise Unsupported("del on concrete dict with a symbolic key that is not syntactically one of its keys")
+                k = idx
             if c.get(k) is None:
                 I.raise_("KeyError")
             I.set_container(base.ref, c.remove(k))
